@@ -20,6 +20,7 @@
 #include <errno.h>
 #include <fcntl.h>
 #include <poll.h>
+#include <sched.h>
 #include <signal.h>
 #include <stdio.h>
 #include <stdlib.h>
@@ -84,6 +85,8 @@ static int bound = 0, jobs = 1;
 static int use_fork = 0;          /* 1: one forked process per execution */
 static pid_t exe_pid = -1;        /* in-process executor of this worker */
 static int exe_req = -1, exe_resp = -1;
+static int cpu_base = 0;
+static int pin_cpu = -1;          /* executor and its serialised threads share one CPU */
 
 static double
 now(void)
@@ -197,6 +200,14 @@ executor_spawn(void)
       putenv(setenvs[i]);
     if (chdir_to && chdir(chdir_to) != 0)
       _exit(249);
+    if (pin_cpu >= 0 && !getenv("VS_NOPIN")) {
+      /* the threads of an execution never run concurrently: keeping them on
+         one CPU turns every hand-off into a local context switch */
+      cpu_set_t cs;
+      CPU_ZERO(&cs);
+      CPU_SET(pin_cpu, &cs);
+      sched_setaffinity(0, sizeof cs, &cs);
+    }
     vs_inproc_init(l_argc, l_argv);
     while (read(rq[0], &c, 1) == 1) {
       vs_cfg = vs_rec->cfg;
@@ -652,6 +663,7 @@ main(int argc, char **argv)
     else if (!strcmp(a, "--argv0")) argv0 = ARG();
     else if (!strcmp(a, "--chdir")) chdir_to = ARG();
     else if (!strcmp(a, "--fork")) use_fork = 1;
+    else if (!strcmp(a, "--cpu-base")) cpu_base = atoi(ARG());
     else {
       fprintf(stderr, "lbzx: unknown option %s\n", a);
       return 2;
@@ -795,6 +807,7 @@ main(int argc, char **argv)
           vs_rec = mmap(NULL, sizeof *vs_rec, PROT_READ | PROT_WRITE,
                         MAP_SHARED | MAP_ANONYMOUS, -1, 0);
           setup_fds();
+          pin_cpu = (cpu_base + w) % (int)sysconf(_SC_NPROCESSORS_ONLN);
           /* children of this worker must not map the shared explorer state:
              16 workers forking and reaping children that all map one shared
              object serialise on its i_mmap lock */
